@@ -24,6 +24,24 @@
 //          ki               kill
 //          to:<id> te:<id>  the stub task <id> returns Ok / Err
 //        Response: one `<result>/<passive status after>` per op, comma separated.
+//   c18.app <h> <s> <n> <item,item,…>  the same, one level up: a real `HelperApp` (app.rs) connected to
+//        the in-memory transports; every item is ONE `Addr` + body handed to the app's request
+//        handlers through the `HandlerRef`s that `AppSetup::new` returns (exactly what the transport
+//        layer does), or one `HelperApp` method call, or a task event. Item grammar:
+//          <name>[!<mod>…][@<origin>][:<arg>…]
+//          names (MPC handler): nq:<pp>:<r…> ReceiveQuery, ph:<r…> PrepareQuery, ri QueryInput,
+//            qs:<r…> QueryStatus, co:<r…> CompleteQuery, ki KillQuery, me Metrics, rec Records
+//          names (shard handler): ps PrepareQuery, ss:<k> QueryStatus, sco:<r…> CompleteQuery,
+//            srec snq sri ski sme = Records / ReceiveQuery / QueryInput / KillQuery / Metrics
+//          names (HelperApp methods): anq:<pp>:<r…> start_query, ari execute_query, aqs:<r…>
+//            query_status, aco:<r…> complete_query;   to:<id> te:<id> as above
+//          mods: noid = Addr.query_id is None; p0..p6 = Addr.params replaced by: empty string, `{}`,
+//            truncated JSON, JSON of another request type, `{"query_id":…}`, a URL-encoded query
+//            string, the proper JSON with an unknown extra field;  @k = Addr.origin (helper / shard k)
+//        Response per item: `<class>/<passive status after>`, class = ok:empty | ok:prepared |
+//        ok:status:<S> | ok:result:<task id> | ok:killed | ok:metrics | err:BadRequest |
+//        err:DeserializationFailure | err:<ApiError variant>:<processor error> | pending:<id> |
+//        stored | dropped | resolved:<class>.
 // ---------------------------------------------------------------------------------------------
 pub mod c18 {
     use std::{
@@ -199,6 +217,70 @@ pub mod c18 {
         }
     }
 
+    /// in-memory MPC and shard networks whose handlers answer from the script
+    fn networks(
+        script: &Arc<Mutex<Script>>,
+        n: u32,
+    ) -> (
+        InMemoryMpcNetwork,
+        InMemoryShardNetwork,
+        Vec<Arc<dyn RequestHandler<HelperIdentity>>>,
+        Vec<Arc<dyn RequestHandler<ShardIndex>>>,
+    ) {
+        let mpc_handlers: Vec<Arc<dyn RequestHandler<HelperIdentity>>> = (0..3)
+            .map(|j| {
+                let script = Arc::clone(script);
+                make_owned_handler(move |_req, _body| {
+                    let r = script.lock().unwrap().mpc[j].unwrap_or(Reply::Ok);
+                    futures::future::ready(reply_to_result(r))
+                })
+            })
+            .collect();
+        let mpc = InMemoryMpcNetwork::new([
+            Some(HandlerBox::owning_ref(&mpc_handlers[0])),
+            Some(HandlerBox::owning_ref(&mpc_handlers[1])),
+            Some(HandlerBox::owning_ref(&mpc_handlers[2])),
+        ]);
+        let script2 = Arc::clone(script);
+        let (shards, shard_handlers) = InMemoryShardNetwork::with_shards_and_handlers(n, move |si| {
+            let script = Arc::clone(&script2);
+            make_owned_handler(move |_req, _body| {
+                let idx = usize::from(si);
+                let r = script.lock().unwrap().shard.get(idx).copied().unwrap_or(Reply::Ok);
+                futures::future::ready(reply_to_result(r))
+            })
+        });
+        (mpc, shards, mpc_handlers, shard_handlers)
+    }
+
+    /// one scripted reply per *other* shard (of `n`, seen from shard `s`), in increasing shard order
+    fn script_shard_replies(script: &Arc<Mutex<Script>>, s: u32, n: u32, spec: &str, differ_ok: bool) {
+        let mut replies = vec![Reply::Ok; n as usize];
+        let others: Vec<usize> = (0..n as usize).filter(|i| *i != s as usize).collect();
+        let chars: Vec<char> = spec.chars().collect();
+        assert_eq!(chars.len(), others.len(), "harness: need one reply per other shard");
+        for (c, i) in chars.iter().zip(others) {
+            replies[i] = match c {
+                'o' => Reply::Ok,
+                'e' | 'x' => Reply::Reject,
+                '0'..='4' if differ_ok => Reply::Differ(STATUSES[*c as usize - '0' as usize]),
+                _ => panic!("harness: bad reply {c}"),
+            };
+        }
+        script.lock().unwrap().shard = replies;
+    }
+
+    /// replies of the two other helpers of `me` (order: left, right)
+    fn script_peer_replies(script: &Arc<Mutex<Script>>, me: HelperIdentity, spec: &str) {
+        let p: Vec<char> = spec.chars().collect();
+        let [right, left] = me.others();
+        let mut sc = script.lock().unwrap();
+        sc.mpc = [None; 3];
+        let idx = |id: HelperIdentity| HelperIdentity::make_three().iter().position(|x| *x == id).unwrap();
+        sc.mpc[idx(left)] = Some(if p[0] == 'o' { Reply::Ok } else { Reply::Reject });
+        sc.mpc[idx(right)] = Some(if p[1] == 'o' { Reply::Ok } else { Reply::Reject });
+    }
+
     struct World {
         processor: Arc<Processor>,
         script: Arc<Mutex<Script>>,
@@ -216,31 +298,7 @@ pub mod c18 {
     impl World {
         fn new(h: usize, s: u32, n: u32) -> Self {
             let script = Arc::new(Mutex::new(Script::default()));
-            let ids = HelperIdentity::make_three();
-            let mpc_handlers: Vec<Arc<dyn RequestHandler<HelperIdentity>>> = (0..3)
-                .map(|j| {
-                    let script = Arc::clone(&script);
-                    make_owned_handler(move |_req, _body| {
-                        let r = script.lock().unwrap().mpc[j].unwrap_or(Reply::Ok);
-                        futures::future::ready(reply_to_result(r))
-                    })
-                })
-                .collect();
-            let mpc = InMemoryMpcNetwork::new([
-                Some(HandlerBox::owning_ref(&mpc_handlers[0])),
-                Some(HandlerBox::owning_ref(&mpc_handlers[1])),
-                Some(HandlerBox::owning_ref(&mpc_handlers[2])),
-            ]);
-            let script2 = Arc::clone(&script);
-            let (shards, shard_handlers) = InMemoryShardNetwork::with_shards_and_handlers(n, move |si| {
-                let script = Arc::clone(&script2);
-                make_owned_handler(move |_req, _body| {
-                    let idx = usize::from(si);
-                    let r = script.lock().unwrap().shard.get(idx).copied().unwrap_or(Reply::Ok);
-                    futures::future::ready(reply_to_result(r))
-                })
-            });
-            let _ = ids;
+            let (mpc, shards, mpc_handlers, shard_handlers) = networks(&script, n);
             World {
                 processor: Arc::new(Processor::default()),
                 script,
@@ -270,19 +328,7 @@ pub mod c18 {
 
         /// one scripted reply per *other* shard, in increasing shard order
         fn set_shard_replies(&self, spec: &str, differ_ok: bool) {
-            let mut replies = vec![Reply::Ok; self.n as usize];
-            let others: Vec<usize> = (0..self.n as usize).filter(|i| *i != self.s as usize).collect();
-            let chars: Vec<char> = spec.chars().collect();
-            assert_eq!(chars.len(), others.len(), "harness: need one reply per other shard");
-            for (c, i) in chars.iter().zip(others) {
-                replies[i] = match c {
-                    'o' => Reply::Ok,
-                    'e' | 'x' => Reply::Reject,
-                    '0'..='4' if differ_ok => Reply::Differ(STATUSES[*c as usize - '0' as usize]),
-                    _ => panic!("harness: bad reply {c}"),
-                };
-            }
-            self.script.lock().unwrap().shard = replies;
+            script_shard_replies(&self.script, self.s, self.n, spec, differ_ok);
         }
 
         fn passive_status(&self) -> String {
@@ -321,15 +367,7 @@ pub mod c18 {
             let parts: Vec<&str> = op.split(':').collect();
             let res = match parts[0] {
                 "nq" => {
-                    let p: Vec<char> = parts[1].chars().collect();
-                    let [right, left] = self.me().others();
-                    {
-                        let mut sc = self.script.lock().unwrap();
-                        sc.mpc = [None; 3];
-                        let idx = |id: HelperIdentity| HelperIdentity::make_three().iter().position(|x| *x == id).unwrap();
-                        sc.mpc[idx(left)] = Some(if p[0] == 'o' { Reply::Ok } else { Reply::Reject });
-                        sc.mpc[idx(right)] = Some(if p[1] == 'o' { Reply::Ok } else { Reply::Reject });
-                    }
+                    script_peer_replies(&self.script, self.me(), parts[1]);
                     self.set_shard_replies(parts.get(2).copied().unwrap_or(""), false);
                     match self.processor.new_query(self.mpc_t(), self.shard_t(), config()).await {
                         Ok(pq) => {
@@ -619,6 +657,607 @@ pub mod c18 {
         }
         v
     }
+
+    // ------------------------------------------------------------------ app / request-handler level
+    use crate::{
+        AppSetup, HelperApp,
+        app::AppConfig,
+        cli::{LoggingHandle, install_collector},
+        helpers::{HandlerRef, TransportIdentity, query::QueryInput, routing::Addr},
+        protocol::Gate,
+    };
+
+    /// payload of stub task `id`: one BA64 holding RESULT_BASE + id
+    const RESULT_BASE: u64 = 0x00c1_8000_0000;
+
+    fn app_ok_result(id: usize) -> QueryResult {
+        use crate::ff::U128Conversions;
+        Ok(Box::new(vec![BA64::truncate_from(u128::from(RESULT_BASE) + id as u128)]))
+    }
+
+    fn completion_error(e: &QueryCompletionError) -> String {
+        match e {
+            QueryCompletionError::NoSuchQuery(_) => "NoSuchQuery".into(),
+            QueryCompletionError::StateError { source } => state_error(source),
+            QueryCompletionError::ExecutionError(_) => "Execution".into(),
+            QueryCompletionError::ShardError(_) => "ShardError".into(),
+        }
+    }
+
+    fn new_query_error(e: &NewQueryError) -> String {
+        match e {
+            NewQueryError::State(e) => state_error(e),
+            NewQueryError::MpcTransport(_) => "MpcTransport".into(),
+            NewQueryError::ShardBroadcastError(_) => "ShardBroadcast".into(),
+        }
+    }
+
+    fn api_error(e: &ApiError) -> String {
+        match e {
+            ApiError::NewQuery(e) => format!("NewQuery:{}", new_query_error(e)),
+            ApiError::QueryInput(QueryInputError::NoSuchQuery(_)) => "QueryInput:NoSuchQuery".into(),
+            ApiError::QueryInput(QueryInputError::StateError { source }) => format!("QueryInput:{}", state_error(source)),
+            ApiError::QueryPrepare(e) => format!("QueryPrepare:{}", prepare_error(e)),
+            ApiError::QueryCompletion(e) => format!("QueryCompletion:{}", completion_error(e)),
+            ApiError::QueryStatus(e) => format!("QueryStatus:{}", status_error(e)),
+            ApiError::QueryKill(QueryKillStatus::NoSuchQuery(_)) => "QueryKill:NoSuchQuery".into(),
+            ApiError::DeserializationFailure(_) => "DeserializationFailure".into(),
+            ApiError::BadRequest(_) => "BadRequest".into(),
+        }
+    }
+
+    /// class of a response body (independent of the route, except Metrics whose body is free text)
+    fn body_class(metrics: bool, body: &[u8]) -> String {
+        if metrics {
+            return "ok:metrics".into();
+        }
+        if body.is_empty() {
+            return "ok:empty".into();
+        }
+        if let Ok(serde_json::Value::Object(m)) = serde_json::from_slice::<serde_json::Value>(body) {
+            let mut keys: Vec<&str> = m.keys().map(String::as_str).collect();
+            keys.sort_unstable();
+            return match keys.as_slice() {
+                ["query_id"] => "ok:prepared".into(),
+                ["status"] => match serde_json::from_value::<QueryStatus>(m["status"].clone()) {
+                    Ok(s) => format!("ok:status:{s:?}"),
+                    Err(_) => format!("ok:json:{}", canon(&String::from_utf8_lossy(body))),
+                },
+                ["query_id", "status"] if m["status"] == "killed" => "ok:killed".into(),
+                _ => format!("ok:json:{}", canon(&String::from_utf8_lossy(body))),
+            };
+        }
+        if body.len() == 8 {
+            let v = u64::from_le_bytes(body.try_into().unwrap());
+            if v >= RESULT_BASE && v < RESULT_BASE + 1_000_000 {
+                return format!("ok:result:{}", v - RESULT_BASE);
+            }
+        }
+        format!("ok:bytes:{}", hex(body))
+    }
+
+    fn response_class(metrics: bool, r: Result<HelperResponse, ApiError>) -> String {
+        match r {
+            Ok(resp) => body_class(metrics, &resp.into_body()),
+            Err(e) => format!("err:{}", api_error(&e)),
+        }
+    }
+
+    struct AppItem<'a> {
+        name: &'a str,
+        mods: Vec<&'a str>,
+        origin: Option<u32>,
+        args: Vec<&'a str>,
+    }
+
+    fn parse_item(tok: &str) -> AppItem<'_> {
+        let mut parts = tok.split(':');
+        let head = parts.next().unwrap();
+        let args: Vec<&str> = parts.collect();
+        let (head, origin) = match head.split_once('@') {
+            Some((a, o)) => (a, Some(o.parse().expect("harness: bad origin"))),
+            None => (head, None),
+        };
+        let mut m = head.split('!');
+        let name = m.next().unwrap();
+        AppItem { name, mods: m.collect(), origin, args }
+    }
+
+    fn id_only_json() -> String {
+        serde_json::to_string(&serde_json::json!({ "query_id": QueryId })).unwrap()
+    }
+
+    /// what a p<k> mod turns the proper params `good` (expected type `ty`) into
+    fn mangle_params(good: &str, ty: &str, k: &str) -> String {
+        let prepare = serde_json::to_string(&PrepareQuery { query_id: QueryId, config: config(), roles: roles() }).unwrap();
+        let query_config = serde_json::to_string(&config()).unwrap();
+        match k {
+            "p0" => String::new(),
+            "p1" => "{}".into(),
+            "p2" => good[..good.len() / 2].to_string(),
+            "p3" => if ty == "PrepareQuery" { query_config } else { prepare },
+            "p4" => id_only_json(),
+            "p5" => "size=1&field_type=fp31&query_type=test-multiply".into(),
+            "p6" => {
+                assert!(good.starts_with('{'));
+                format!("{{\"ipa_verif_extra\":[1,{{\"a\":null}}],{}", &good[1..])
+            }
+            _ => panic!("harness: unknown params mod {k}"),
+        }
+    }
+
+    fn apply_mods<I: TransportIdentity>(mut addr: Addr<I>, it: &AppItem<'_>, ty: &str) -> Addr<I> {
+        for m in &it.mods {
+            match *m {
+                "noid" => addr.query_id = None,
+                k if k.starts_with('p') => addr.params = mangle_params(&addr.params.clone(), ty, k),
+                other => panic!("harness: unknown mod {other}"),
+            }
+        }
+        addr
+    }
+
+    struct AppWorld {
+        app: Arc<HelperApp>,
+        mpc_ref: HandlerRef<HelperIdentity>,
+        shard_ref: HandlerRef<ShardIndex>,
+        script: Arc<Mutex<Script>>,
+        _mpc: InMemoryMpcNetwork,
+        _shards: InMemoryShardNetwork,
+        _mpc_handlers: Vec<Arc<dyn RequestHandler<HelperIdentity>>>,
+        _shard_handlers: Vec<Arc<dyn RequestHandler<ShardIndex>>>,
+        h: usize,
+        s: u32,
+        n: u32,
+        senders: Vec<Option<tokio::sync::oneshot::Sender<QueryResult>>>,
+        pending: Vec<(usize, tokio::task::JoinHandle<String>)>,
+    }
+
+    impl AppWorld {
+        /// Must run inside the tokio runtime (`AppConfig::default()` captures the current handle).
+        fn new(h: usize, s: u32, n: u32) -> Self {
+            let script = Arc::new(Mutex::new(Script::default()));
+            let (mpc, shards, mpc_handlers, shard_handlers) = networks(&script, n);
+            let me = HelperIdentity::make_three()[h];
+            // exactly what `TestApp::default` / the helper binary do: Setup::new, then connect
+            let (setup, mpc_ref, shard_ref) = AppSetup::new(AppConfig::default());
+            let logging_handle = LoggingHandle { metrics_handle: install_collector().unwrap() };
+            let app = setup.connect(mpc.transport(me), shards.transport(me, ShardIndex::from(s)), logging_handle);
+            AppWorld {
+                app: Arc::new(app),
+                mpc_ref,
+                shard_ref,
+                script,
+                _mpc: mpc,
+                _shards: shards,
+                _mpc_handlers: mpc_handlers,
+                _shard_handlers: shard_handlers,
+                h,
+                s,
+                n,
+                senders: Vec::new(),
+                pending: Vec::new(),
+            }
+        }
+
+        fn me(&self) -> HelperIdentity {
+            HelperIdentity::make_three()[self.h]
+        }
+
+        fn processor(&self) -> &Processor {
+            self.app.ipa_verif_query_processor()
+        }
+
+        fn passive_status(&self) -> String {
+            match self.processor().ipa_verif_queries().handle(QueryId).status() {
+                None => "none".into(),
+                Some(s) => format!("{s:?}"),
+            }
+        }
+
+        async fn settle(&self) {
+            for _ in 0..64 {
+                tokio::task::yield_now().await;
+            }
+        }
+
+        async fn reap(&mut self) -> Vec<(usize, String)> {
+            let mut done = Vec::new();
+            let mut i = 0;
+            while i < self.pending.len() {
+                if self.pending[i].1.is_finished() {
+                    let (id, jh) = self.pending.remove(i);
+                    let r = match jh.await {
+                        Ok(r) => r,
+                        Err(e) => format!("panic:{}", canon(&e.to_string())),
+                    };
+                    done.push((id, r));
+                } else {
+                    i += 1;
+                }
+            }
+            done
+        }
+
+        /// After a successful QueryInput: replace the real protocol task (never polled so far) by a stub.
+        fn install_stub(&mut self) {
+            let (tx, rx) = tokio::sync::oneshot::channel();
+            let mut q = self.processor().ipa_verif_queries().inner.lock().unwrap();
+            match q.remove(&QueryId) {
+                Some(QueryState::Running(real)) => real.join_handle.abort(),
+                _ => panic!("harness: QueryInput answered ok but the state is not Running"),
+            }
+            q.insert(
+                QueryId,
+                QueryState::Running(RunningQuery {
+                    result: rx,
+                    join_handle: IpaRuntime::current().spawn(std::future::pending()),
+                }),
+            );
+            drop(q);
+            self.senders.push(Some(tx));
+        }
+
+        fn mpc_origin(&self, it: &AppItem<'_>) -> Option<HelperIdentity> {
+            it.origin.map(|k| HelperIdentity::make_three()[k as usize % 3])
+        }
+
+        fn shard_origin(&self, it: &AppItem<'_>) -> Option<ShardIndex> {
+            it.origin.map(ShardIndex::from)
+        }
+
+        /// the `Addr` the transport layer would build for this item (MPC side), then the mods
+        fn mpc_addr(&self, it: &AppItem<'_>) -> Addr<HelperIdentity> {
+            let o = self.mpc_origin(it);
+            let prepare = PrepareQuery { query_id: QueryId, config: config(), roles: roles() };
+            // status / results / kill requests of the HTTP layer carry `{"query_id":…}` as params
+            let with_id = |route: RouteId| Addr { route, origin: o, query_id: Some(QueryId), gate: None, params: id_only_json() };
+            let (addr, ty) = match it.name {
+                "nq" => (Addr::from_route(o, &config()), "QueryConfig"),
+                "ph" => (Addr::from_route(o, prepare), "PrepareQuery"),
+                "ri" => (Addr::from_route(o, (RouteId::QueryInput, QueryId)), "-"),
+                "qs" => (with_id(RouteId::QueryStatus), "-"),
+                "co" => (with_id(RouteId::CompleteQuery), "-"),
+                "ki" => (with_id(RouteId::KillQuery), "-"),
+                "me" => (Addr::from_route(o, RouteId::Metrics), "-"),
+                "rec" => (Addr::from_route(o, (RouteId::Records, QueryId, Gate::default())), "-"),
+                other => panic!("harness: unknown MPC item {other}"),
+            };
+            apply_mods(addr, it, ty)
+        }
+
+        fn shard_addr(&self, it: &AppItem<'_>) -> Addr<ShardIndex> {
+            let o = self.shard_origin(it);
+            let prepare = PrepareQuery { query_id: QueryId, config: config(), roles: roles() };
+            let (addr, ty) = match it.name {
+                "ps" => (Addr::from_route(o, prepare), "PrepareQuery"),
+                "ss" => {
+                    let k: usize = it.args[0].parse().unwrap();
+                    (Addr::from_route(o, CompareStatusRequest { query_id: QueryId, status: STATUSES[k] }), "CompareStatusRequest")
+                }
+                // what the leader shard broadcasts in `Processor::complete`
+                "sco" => (Addr::from_route(o, (RouteId::CompleteQuery, QueryId)), "-"),
+                "srec" => (Addr::from_route(o, (RouteId::Records, QueryId, Gate::default())), "-"),
+                "snq" => (Addr::from_route(o, &config()), "QueryConfig"),
+                "sri" => (Addr::from_route(o, (RouteId::QueryInput, QueryId)), "-"),
+                "ski" => (Addr { route: RouteId::KillQuery, origin: o, query_id: Some(QueryId), gate: None, params: id_only_json() }, "-"),
+                "sme" => (Addr::from_route(o, RouteId::Metrics), "-"),
+                other => panic!("harness: unknown shard item {other}"),
+            };
+            apply_mods(addr, it, ty)
+        }
+
+        async fn item(&mut self, tok: &str) -> String {
+            let it = parse_item(tok);
+            let arg = |i: usize| it.args.get(i).copied().unwrap_or("");
+            // scripted replies of the others
+            match it.name {
+                "nq" | "anq" => {
+                    script_peer_replies(&self.script, self.me(), arg(0));
+                    script_shard_replies(&self.script, self.s, self.n, arg(1), false);
+                }
+                "ph" | "co" | "sco" | "aco" => script_shard_replies(&self.script, self.s, self.n, arg(0), false),
+                "qs" | "aqs" => script_shard_replies(&self.script, self.s, self.n, arg(0), true),
+                _ => {}
+            }
+            let well_formed_input = |it: &AppItem<'_>| !it.mods.contains(&"noid");
+            let res = match it.name {
+                // ---- requests that may stay in flight: spawned
+                "co" | "sco" | "aco" => {
+                    let task_id = self.senders.len().wrapping_sub(1);
+                    let jh = match it.name {
+                        "co" => {
+                            let (r, addr) = (self.mpc_ref.clone(), self.mpc_addr(&it));
+                            tokio::spawn(async move { response_class(false, r.handle(addr, BodyStream::empty()).await) })
+                        }
+                        "sco" => {
+                            let (r, addr) = (self.shard_ref.clone(), self.shard_addr(&it));
+                            tokio::spawn(async move { response_class(false, r.handle(addr, BodyStream::empty()).await) })
+                        }
+                        _ => {
+                            let app = Arc::clone(&self.app);
+                            tokio::spawn(async move {
+                                match app.complete_query(QueryId).await {
+                                    Ok(bytes) => body_class(false, &bytes),
+                                    Err(e) => format!("err:{}", api_error(&e)),
+                                }
+                            })
+                        }
+                    };
+                    self.settle().await;
+                    if jh.is_finished() {
+                        match jh.await {
+                            Ok(r) => r,
+                            Err(e) => format!("panic:{}", canon(&e.to_string())),
+                        }
+                    } else {
+                        self.pending.push((task_id, jh));
+                        format!("pending:{task_id}")
+                    }
+                }
+                // ---- the other requests of the MPC handler
+                "nq" | "ph" | "ri" | "qs" | "ki" | "me" | "rec" => {
+                    let addr = self.mpc_addr(&it);
+                    let body = if it.name == "ri" { BodyStream::from(vec![1u8, 2, 3, 4]) } else { BodyStream::empty() };
+                    let r = self.mpc_ref.handle(addr, body).await;
+                    if it.name == "ri" && r.is_ok() {
+                        assert!(well_formed_input(&it), "harness: QueryInput without query id accepted");
+                        self.install_stub();
+                    }
+                    response_class(it.name == "me", r)
+                }
+                // ---- requests of the shard handler
+                "ps" | "ss" | "srec" | "snq" | "sri" | "ski" | "sme" => {
+                    let addr = self.shard_addr(&it);
+                    let r = self.shard_ref.handle(addr, BodyStream::empty()).await;
+                    if it.name == "sri" && r.is_ok() {
+                        self.install_stub();
+                    }
+                    response_class(false, r)
+                }
+                // ---- HelperApp methods
+                "anq" => match self.app.start_query(config()).await {
+                    Ok(QueryId) => "ok:prepared".to_string(),
+                    Err(e) => format!("err:NewQuery:{}", new_query_error(&e)),
+                },
+                "ari" => {
+                    let input = QueryInput::Inline { query_id: QueryId, input_stream: BodyStream::from(vec![1u8, 2, 3, 4]) };
+                    match self.app.execute_query(input) {
+                        Ok(()) => {
+                            self.install_stub();
+                            "ok:empty".to_string()
+                        }
+                        Err(e) => format!("err:{}", api_error(&e)),
+                    }
+                }
+                "aqs" => match self.app.query_status(QueryId).await {
+                    Ok(s) => format!("ok:status:{s:?}"),
+                    Err(e) => format!("err:{}", api_error(&e)),
+                },
+                // ---- task events
+                "to" | "te" => {
+                    let id: usize = arg(0).parse().unwrap();
+                    let r = if it.name == "to" { app_ok_result(id) } else { err_result() };
+                    match self.senders.get_mut(id).and_then(Option::take) {
+                        None => "dropped".to_string(),
+                        Some(tx) => {
+                            let was_pending = self.pending.iter().any(|(t, _)| *t == id);
+                            match tx.send(r) {
+                                Err(_) => "dropped".to_string(),
+                                Ok(()) => {
+                                    self.settle().await;
+                                    if was_pending {
+                                        let done = self.reap().await;
+                                        match done.iter().find(|(t, _)| *t == id) {
+                                            Some((_, r)) => format!("resolved:{r}"),
+                                            None => "unresolved".to_string(),
+                                        }
+                                    } else {
+                                        "stored".to_string()
+                                    }
+                                }
+                            }
+                        }
+                    }
+                }
+                other => panic!("harness: unknown item {other}"),
+            };
+            self.settle().await;
+            let stray = self.reap().await;
+            let mut out = res;
+            for (id, r) in stray {
+                out.push_str(&format!("+stray{id}={r}"));
+            }
+            format!("{out}/{}", self.passive_status())
+        }
+    }
+
+    pub fn exec_app(req: &str) -> String {
+        let t: Vec<&str> = req.split(' ').collect();
+        assert_eq!(t[0], "c18.app");
+        let (h, s, n): (usize, u32, u32) = (t[1].parse().unwrap(), t[2].parse().unwrap(), t[3].parse().unwrap());
+        let items: Vec<String> = t[4].split(',').map(str::to_string).collect();
+        current_thread(async move {
+            let mut w = AppWorld::new(h, s, n);
+            let mut out = Vec::new();
+            for it in &items {
+                // a panic of the handler is the response of that item; the history ends there
+                out.push(w.item(it).await);
+            }
+            for (_, jh) in w.pending.drain(..) {
+                jh.abort();
+            }
+            out.join(",")
+        })
+        .unwrap_or_else(|e| e)
+    }
+
+    /// the lifecycle requests of a helper at this position: create, inputs, status, complete, kill,
+    /// the task returning, and two malformed requests
+    fn app_base(h: usize, s: u32, n: u32) -> Vec<String> {
+        let o = rep('o', n - 1);
+        let leader = s == 0;
+        let create = if !leader { "ps".to_string() } else if h == 0 { format!("nq:oo:{o}") } else { format!("ph:{o}") };
+        let status = if leader { format!("qs:{o}") } else { "ss:2".to_string() };
+        let complete = if leader { format!("co:{o}") } else { format!("sco:{o}") };
+        let bad_params = if !leader { "ps!p1".to_string() } else if h == 0 { format!("nq!p3:oo:{o}") } else { format!("ph!p2:{o}") };
+        vec![create, "ri".into(), status, complete, "ki".into(), "to:0".into(), "ki!noid".into(), bad_params]
+    }
+
+    /// every kind of item (all routes on both handlers, all mods, origins, scripted rejections, methods)
+    fn app_full(h: usize, s: u32, n: u32) -> Vec<String> {
+        let k = n - 1;
+        let o = rep('o', k);
+        let mut v: Vec<String> = vec![
+            format!("nq:oo:{o}"), format!("ph:{o}"), "ps".into(), "ri".into(), format!("qs:{o}"), format!("co:{o}"),
+            format!("sco:{o}"), "ki".into(), "me".into(), format!("anq:oo:{o}"), "ari".into(), format!("aqs:{o}"),
+            format!("aco:{o}"), "to:0".into(), "te:0".into(), "to:1".into(), "te:1".into(),
+            // routes the handlers do not serve
+            "rec".into(), "srec".into(), "snq".into(), "sri".into(), "ski".into(), "sme".into(),
+            // missing query id: required …
+            "ri!noid".into(), format!("qs!noid:{o}"), format!("co!noid:{o}"), "ki!noid".into(), format!("sco!noid:{o}"),
+            // … and not required (the id travels in the params)
+            format!("ph!noid:{o}"), "ps!noid".into(), "ss!noid:1".into(),
+            // origins (never looked at)
+            format!("nq@1:oo:{o}"), "ri@0".into(), "ki@2".into(), "ps@0".into(), format!("sco@1:{o}"), format!("ph@{h}:{o}"),
+            format!("qs@7:{o}"), "ss@5:2".into(), "ki!noid@1".into(), "rec@2".into(),
+            // rejections by the peers
+            format!("nq:eo:{o}"), format!("nq:oe:{o}"), format!("anq:ee:{o}"),
+        ];
+        for st in 0..5 {
+            v.push(format!("ss:{st}"));
+        }
+        for m in 0..7 {
+            v.push(format!("nq!p{m}:oo:{o}"));
+            v.push(format!("ph!p{m}:{o}"));
+            v.push(format!("ps!p{m}"));
+            v.push(format!("ss!p{m}:{}", m % 5));
+        }
+        v.push(format!("nq!noid!p6@2:oo:{o}"));
+        v.push("ps!p4!noid@1".into());
+        if k > 0 {
+            let e = format!("e{}", rep('o', k - 1));
+            v.push(format!("nq:oo:{e}"));
+            v.push(format!("ph:{e}"));
+            v.push(format!("co:{e}"));
+            v.push(format!("sco:{e}"));
+            v.push(format!("aco:{e}"));
+            v.push(format!("qs:x{}", rep('o', k - 1)));
+            for d in 0..5 {
+                v.push(format!("qs:{d}{}", rep('o', k - 1)));
+            }
+            v.push(format!("aqs:1{}", rep('o', k - 1)));
+        }
+        v
+    }
+
+    fn app_random_item(rng: &mut Rng, h: usize, k: u32, tasks: &mut usize) -> String {
+        let reps = |rng: &mut Rng, alphabet: &[char], bias: u64| -> String {
+            (0..k).map(|_| if rng.below(bias) == 0 { *rng.pick(&alphabet[1..]) } else { alphabet[0] }).collect()
+        };
+        let peers = |rng: &mut Rng| -> String { (0..2).map(|_| if rng.below(6) == 0 { 'e' } else { 'o' }).collect() };
+        let origin = |rng: &mut Rng| -> String { if rng.below(3) == 0 { format!("@{}", rng.below(4)) } else { String::new() } };
+        let noid = |rng: &mut Rng| -> &'static str { if rng.below(8) == 0 { "!noid" } else { "" } };
+        let pmod = |rng: &mut Rng| -> String { if rng.below(6) == 0 { format!("!p{}", rng.below(7)) } else { String::new() } };
+        let _ = h;
+        match rng.below(32) {
+            0 | 1 => format!("nq{}{}:{}:{}", pmod(rng), origin(rng), peers(rng), reps(rng, &['o', 'e'], 6)),
+            2 => format!("anq:{}:{}", peers(rng), reps(rng, &['o', 'e'], 6)),
+            3 | 4 => format!("ph{}{}{}:{}", pmod(rng), noid(rng), origin(rng), reps(rng, &['o', 'e'], 6)),
+            5 | 6 => format!("ps{}{}{}", pmod(rng), noid(rng), origin(rng)),
+            7 | 8 | 9 | 10 => {
+                let n = noid(rng);
+                if n.is_empty() {
+                    *tasks += 1;
+                }
+                format!("ri{n}{}", origin(rng))
+            }
+            11 => {
+                *tasks += 1;
+                "ari".into()
+            }
+            12 | 13 => format!("qs{}{}:{}", noid(rng), origin(rng), reps(rng, &['o', '0', '1', '2', '3', '4', 'x'], 2)),
+            14 => format!("aqs:{}", reps(rng, &['o', '0', '1', '2', '3', '4', 'x'], 2)),
+            15 | 16 => format!("ss{}{}{}:{}", pmod(rng), noid(rng), origin(rng), rng.below(5)),
+            17 | 18 | 19 => format!("co{}{}:{}", noid(rng), origin(rng), reps(rng, &['o', 'e'], 8)),
+            20 => format!("sco{}{}:{}", noid(rng), origin(rng), reps(rng, &['o', 'e'], 8)),
+            21 => format!("aco:{}", reps(rng, &['o', 'e'], 8)),
+            22 | 23 => format!("ki{}{}", noid(rng), origin(rng)),
+            24 => (*rng.pick(&["me", "rec", "srec", "snq", "sri", "ski", "sme"])).to_string(),
+            25 | 26 | 27 | 28 => format!("to:{}", rng.below((*tasks as u64).max(1) + 1)),
+            _ => format!("te:{}", rng.below((*tasks as u64).max(1) + 1)),
+        }
+    }
+
+    pub fn gen_app(rng: &mut Rng, thorough: bool) -> Vec<String> {
+        let mut v = Vec::new();
+        let positions = [(0usize, 0u32, 1u32), (0, 0, 2), (1, 0, 2), (1, 1, 2)];
+        // the scenarios the property text names, through the handlers
+        for (h, s, n) in [(0usize, 0u32, 1u32), (0, 0, 2), (1, 0, 2), (1, 1, 2), (0, 1, 3), (2, 0, 3)] {
+            let b = app_base(h, s, n);
+            let (create, status, complete) = (&b[0], &b[2], &b[3]);
+            let head = format!("c18.app {h} {s} {n}");
+            for sc in [
+                format!("{create},ri,to:0,{status},{complete},{complete},{create}"),
+                format!("{create},ri,{complete},ki,{create},to:0,{status},me"),
+                format!("{create},ri!noid,ri,ki!noid,{complete},rec,srec,to:0,{complete}"),
+                format!("{create},ri,ri,te:0,{complete},{status},{create},ri,to:1,{complete}"),
+                format!("{status},{complete},ki,ri,{create},{create},ri,ki,to:0,{create}"),
+                format!("{create},ari,aco:{0},ki,{create},ari,aco:{0},to:0,to:1,{status}", rep('o', n - 1)),
+            ] {
+                v.push(format!("{head} {sc}"));
+            }
+        }
+        // exhaustive: every history of the lifecycle requests (+ two malformed ones) to depth 4 (5 thorough)
+        for (h, s, n) in positions {
+            let head = format!("c18.app {h} {s} {n}");
+            enumerate(&app_base(h, s, n), if thorough { 5 } else { 4 }, &mut Vec::new(), &head, &mut v);
+        }
+        // every kind of item after / before / between every lifecycle request
+        for (h, s, n) in positions {
+            let head = format!("c18.app {h} {s} {n}");
+            let base = app_base(h, s, n);
+            let full = app_full(h, s, n);
+            let status = base[2].clone();
+            for f in &full {
+                v.push(format!("{head} {f},{status}"));
+                for b in &base[..6] {
+                    v.push(format!("{head} {b},{f},{status}"));
+                    v.push(format!("{head} {f},{b},{status}"));
+                }
+                // in each lifecycle state: preparing is not reachable from outside; awaiting inputs, running,
+                // awaiting completion, completed
+                let (create, complete) = (&base[0], &base[3]);
+                v.push(format!("{head} {create},ri,{f},{status}"));
+                v.push(format!("{head} {create},ri,{complete},{f},{status},to:0"));
+                v.push(format!("{head} {create},ri,to:0,{status},{f},{status}"));
+                if thorough {
+                    for g in &full {
+                        v.push(format!("{head} {f},{g},{status}"));
+                        v.push(format!("{head} {create},{f},{g},{status}"));
+                        v.push(format!("{head} {create},ri,{f},{g},{status}"));
+                    }
+                }
+            }
+        }
+        // random long histories
+        let count = if thorough { 20000 } else { 1000 };
+        for _ in 0..count {
+            let n = 1 + rng.below(4) as u32;
+            let s = if rng.bool() { 0 } else { rng.below(u64::from(n)) as u32 };
+            let h = rng.usize_below(3);
+            let len = if rng.below(4) == 0 { 1 + rng.usize_below(8) } else { 24 };
+            let mut tasks = 0usize;
+            let items: Vec<String> = (0..len).map(|_| app_random_item(rng, h, n - 1, &mut tasks)).collect();
+            v.push(format!("c18.app {h} {s} {n} {}", items.join(",")));
+        }
+        v
+    }
+}
+
+#[test]
+fn verif_c18_app() {
+    crate::ipa_verif::proto::run_suite("c18_app", c18::gen_app, c18::exec_app);
 }
 
 #[test]
